@@ -2134,6 +2134,12 @@ class Store:
             else:
                 if key not in self.inner:
                     self.inner[key] = Store({}, outer=self)
+                else:
+                    # a branch that exists already (created by the wiring
+                    # of an earlier process) takes its place in the
+                    # order of declaration, which get_processes() and
+                    # get_steps() report
+                    self.inner[key] = self.inner.pop(key)
                 self.inner[key]._generate_paths(
                     subprocess,
                     subflow,
